@@ -43,9 +43,11 @@ func pairFamilies(tier string) []pairFamily {
 			ops:   [][]string{c("ZADD", k, "2", "a"), c("ZADD", k, "1", "c"), c("ZADD", k, "NX", "3", "a"), c("ZADD", k, "INCR", "1", "a"), c("ZREM", k, "a"), c("ZREM", k, "a", "b"), c("ZRANK", k, "a"), c("ZRANGE", k, "0", "-1", "WITHSCORES"), c("DEL", k), c("EXISTS", k), c("RENAME", k, k1)},
 			ro:    map[string]bool{"ZRANK": true, "ZRANGE": true, "EXISTS": true}},
 		{name: "stream",
-			seeds: map[string][][]string{"none": nil, "one": {c("XADD", k, "5-1", "f", "v")}},
-			ops:   [][]string{c("XADD", k, "6-1", "f", "w"), c("XADD", k, "6-*", "f", "x"), c("XADD", k, "NOMKSTREAM", "7-1", "f", "y"), c("XADD", k, "MAXLEN", "1", "8-1", "f", "z"), c("XRANGE", k, "-", "+"), c("DEL", k), c("EXISTS", k)},
-			ro:    map[string]bool{"XRANGE": true, "EXISTS": true}},
+			seeds: map[string][][]string{"none": nil, "one": {c("XADD", k, "5-1", "f", "v")}, "two": {c("XADD", k, "5-1", "f", "v"), c("XADD", k, "5-2", "f", "v2")}},
+			ops: [][]string{c("XADD", k, "6-1", "f", "w"), c("XADD", k, "6-*", "f", "x"), c("XADD", k, "NOMKSTREAM", "7-1", "f", "y"), c("XADD", k, "MAXLEN", "1", "8-1", "f", "z"),
+				// auto ids: two concurrent appends both succeed, so both trim (the bound must hold for the pair)
+				c("XADD", k, "MAXLEN", "1", "*", "f", "a"), c("XADD", k, "MAXLEN", "2", "*", "f", "b"), c("XADD", k, "MINID", "5-2", "*", "f", "m"), c("XRANGE", k, "-", "+"), c("DEL", k), c("EXISTS", k)},
+			ro: map[string]bool{"XRANGE": true, "EXISTS": true}},
 	}
 	if tier != "thorough" {
 		// quick: the seed states in which an emptied container is deleted / a missing one created
